@@ -212,7 +212,7 @@ def judgeLine (line : String) : String :=
                       match mnet with
                       | none => (some s!"q{i}:model-has-no-network-at-this-moment", false)
                       | some net =>
-                      match shortestRoute geoRat pickMin true idOrd net a b, r with
+                      match shortestRoute geoRat heapQ true idOrd net a b, r with
                       | .ok m, .ok ans _ =>
                         let cm := match c.opt with | .distance => m.distance | .time => m.time
                         let ci := match c.opt with | .distance => ans.distance | .time => ans.time
